@@ -73,6 +73,7 @@ type violation struct {
 	Out       []string
 	Stack     string
 	MapOrder  int // number of map-iteration-order choices on the path
+	Threads   bool // the path ran interpreted threads (schedule cannot be forced natively)
 }
 
 type Exec struct {
@@ -105,12 +106,14 @@ type Exec struct {
 	funcs                           map[*ssa.Function]bool
 	pool                            map[*Value][]Value // sync.Pool contents, keyed by pool address
 	mutexHeld                       map[*Value]bool
+	rlockHeld                       map[*Value]int
 	callStack                       []*ssa.Function
 	inPanics                        int
 	merging                         int
 	pendingUnsafe                   string
 	mapChoices                      int
 	lastFn                          *ssa.Function
+	usedThreads                     bool
 	pending                         []pendingAssert
 	noMerge                         bool
 	threads                         *threadState
@@ -467,7 +470,7 @@ func (ex *Exec) fail(kind, label, detail string) {
 		}
 		v := &violation{Label: label, Kind: kind, Detail: detail, Model: ex.model,
 			Vals: append([]replayValue(nil), ex.vals...), Decisions: append([]decision(nil), ex.decisions...),
-			Job: ex.job, Out: append([]string(nil), ex.outLog...), MapOrder: ex.mapChoices}
+			Job: ex.job, Out: append([]string(nil), ex.outLog...), MapOrder: ex.mapChoices, Threads: ex.usedThreads}
 		var st []string
 		for _, f := range ex.callStack {
 			st = append(st, f.String())
@@ -556,7 +559,7 @@ func (w *Worker) runPath(it *workItem) (res pathResult) {
 	ex := &Exec{w: w, job: it.job, tc: w.tctx, prefix: it.prefix,
 		lits: map[*Term]bool{}, fixed: Model{}, globals: map[*ssa.Global]*Value{}, inited: map[*ssa.Package]bool{},
 		cover: map[string]bool{}, assumes: map[string]bool{}, intrinsicsUsed: map[string]bool{},
-		funcs: map[*ssa.Function]bool{}, pool: map[*Value][]Value{}, mutexHeld: map[*Value]bool{}}
+		funcs: map[*ssa.Function]bool{}, pool: map[*Value][]Value{}, mutexHeld: map[*Value]bool{}, rlockHeld: map[*Value]int{}}
 	if it.seed != nil {
 		ex.seed, ex.model, ex.modelOK = it.seed, Model{}, true
 	}
